@@ -225,6 +225,10 @@ pub struct WideCase {
     in_multi: bool,
     #[serde(default)]
     resized_from: Option<u16>,
+    /// the line starts with `{pos:65535}x`: what stands besides the wide element is wider than 65535 columns
+    /// (terminals of at least 150 columns only, so that the line still fits the emulated height)
+    #[serde(default)]
+    huge_before: bool,
 }
 
 fn run_wide(c: &WideCase) -> CaseResult {
@@ -246,9 +250,12 @@ fn run_wide(c: &WideCase) -> CaseResult {
         Some(_) => "plain text\n".to_string(),
         None => String::new(),
     };
+    let huge = c.huge_before && c.term >= 150 && c.resized_from.is_none();
+    let c = &WideCase { left: if huge { format!("{:<65535}x{}", 7, c.left) } else { c.left.clone() }, ..c.clone() };
     let template = format!(
-        "{first}{}{{wide_msg{}}}{}",
-        c.left,
+        "{first}{}{}{{wide_msg{}}}{}",
+        if huge { "{pos:65535}x" } else { "" },
+        if huge { &c.left[65536..] } else { c.left.as_str() },
         c.align.map(|a| format!(":{}", a.flag())).unwrap_or_default(),
         c.right
     );
@@ -306,6 +313,7 @@ fn run_wide(c: &WideCase) -> CaseResult {
     v.label_if(c.line_before.is_some(), "second_line_of_a_template_with_another_wide_element");
     v.label_if(tabbed, "tab_width_changed_between_two_draws");
     v.label_if(c.in_multi && c.resized_from.map_or(false, |w| w != c.term), "member_of_a_multi_progress_after_the_terminal_was_resized");
+    v.label_if(huge, "rest_of_the_line_wider_than_65535_columns");
     Ok(v)
 }
 
@@ -321,7 +329,7 @@ fn wide_strategy() -> BoxedStrategy<WideCase> {
         proptest::bool::weighted(0.3),
         proptest::option::weighted(0.3, 1u16..200),
     )
-        .prop_map(|(chunks, term, left, right, align, line_before, tab, in_multi, resized_from)| WideCase { chunks, term, left, right, align, line_before, tab, in_multi, resized_from })
+        .prop_map(|(chunks, term, left, right, align, line_before, tab, in_multi, resized_from)| WideCase { huge_before: term >= 150 && term % 2 == 0, chunks, term, left, right, align, line_before, tab, in_multi, resized_from })
         .boxed()
 }
 
@@ -350,7 +358,7 @@ fn decode_pad(u: &mut FuzzInput) -> PadCase {
 
 fn decode_wide(u: &mut FuzzInput) -> WideCase {
     let lit = |u: &mut FuzzInput, max: usize| -> String { (0..u.n(max)).map(|_| u.pick(&['a', ':', '[', ']', ' ', '\u{e9}', '\u{4e16}'])).collect() };
-    WideCase { chunks: decode_chunks(u), term: 1 + u.n(99) as u16, left: lit(u, 6), right: lit(u, 4), align: [None, None, Some(Align::Left), Some(Align::Center), Some(Align::Right)][u.n(4)], line_before: if u.n(3) == 0 { Some(u.n(2) as u8) } else { None }, tab: if u.n(3) == 0 { Some((u.u8(), u.n(16) as u8, u.n(16) as u8)) } else { None }, in_multi: u.n(3) == 0, resized_from: if u.n(3) == 0 { Some(1 + u.n(150) as u16) } else { None } }
+    WideCase { chunks: decode_chunks(u), term: 1 + u.n(99) as u16, left: lit(u, 6), right: lit(u, 4), align: [None, None, Some(Align::Left), Some(Align::Center), Some(Align::Right)][u.n(4)], line_before: if u.n(3) == 0 { Some(u.n(2) as u8) } else { None }, tab: if u.n(3) == 0 { Some((u.u8(), u.n(16) as u8, u.n(16) as u8)) } else { None }, in_multi: u.n(3) == 0, resized_from: if u.n(3) == 0 { Some(1 + u.n(150) as u16) } else { None }, huge_before: false }
 }
 
 pub fn property() -> Property {
@@ -363,7 +371,7 @@ pub fn property() -> Property {
             "centre alignment: the odd column / the window may sit on either side",
             "escape sequences kept by a truncation are not prescribed, only that they are intact, from the content and in order",
             "wide_msg at the very end of a line may trim its trailing padding (documented behaviour of the crate: no trailing whitespace)",
-            "contents without combining marks or newlines; a TAB only in contents without SGR sequences",
+            "contents without combining marks (the statement counts columns; where a zero-column mark goes when its letter is cut is not specified) or newlines; a TAB only in contents without SGR sequences",
         ],
         parts: vec![
             Box::new(Gen::<PadCase> {
@@ -384,7 +392,7 @@ pub fn property() -> Property {
                 cases: |t| t.pick(24_000, 1_200_000),
                 run: run_wide,
                 signature: no_signature,
-                essential: &["truncation_path", "truncation_non_ascii_or_sgr", "padding_path", "rest_does_not_fit", "wide_msg_last", "member_of_a_multi_progress_after_the_terminal_was_resized"],
+                essential: &["truncation_path", "truncation_non_ascii_or_sgr", "padding_path", "rest_does_not_fit", "wide_msg_last", "member_of_a_multi_progress_after_the_terminal_was_resized", "rest_of_the_line_wider_than_65535_columns"],
                 workers: w,
                 decode: Some(decode_wide),
             }),
